@@ -15,8 +15,9 @@ connected, but no rule depends on that and the generator also produces scattered
 import itertools
 
 NAME = "putteria"
-STATUS = "model+differential"
-THEOREMS = []
+STATUS = "theorem"
+THEOREMS = ["Cspuz.C11.Putteria.program_iff_rules", "Cspuz.C11.Putteria.total"]
+LEAN_FILE = "C11_Putteria"
 LEAN_CMD = "puz_putteria"
 
 
